@@ -1,9 +1,10 @@
 from contracts.histories import ApiHistories, KfRemoveThroughParent
 from contracts.concat import ConcatHistories
 from contracts.removal import CONTRACTS as _R
-from contracts.tree import SweepDeadEntries
+from contracts.tree import SweepDeadEntries, TypeInStoredRecords
 from contracts.repaired import ConcatNameSet, ConcatParentSet
-CONTRACTS = list(_R) + [SweepDeadEntries, ApiHistories, KfRemoveThroughParent, ConcatHistories] + [ConcatNameSet, ConcatParentSet]
+from contracts.h5graph import FetchHandle as _FH, RemoveEntityW as _REW, RemoveChild as _RC
+CONTRACTS = list(_R) + [SweepDeadEntries, TypeInStoredRecords, ApiHistories, KfRemoveThroughParent, ConcatHistories] + [ConcatNameSet, ConcatParentSet] + [_FH, _REW, _RC]
 
 MANIFEST = {
     "category": "proof",
